@@ -289,6 +289,8 @@ def build_real_files(ctx, torch):
     torchfiles.legacy_tar(files["tar"], d)
     files["mar"] = os.path.join(d, "model.mar")
     torchfiles.mar_zip(files["mar"], torch)
+    files["mar-big"] = os.path.join(d, "model_big.mar")
+    torchfiles.mar_zip(files["mar-big"], torch, big=True)
     files["text"] = os.path.join(d, "notes.txt")
     with open(files["text"], "wb") as fh:
         fh.write(b"\xff\xfe not a model at all \x00\x01")
@@ -353,6 +355,7 @@ def run_shard(ctx):
         for outname in ("bare", "subdir", "dot", "absolute"):
             polyglot_case(ctx, mods, files, a, b, outname=outname)
         interesting = {("zip", "jit"), ("jit", "zip"), ("mar", "legacy"), ("legacy", "mar"), ("mar", "tar"), ("tar", "mar"),
+                       ("mar-big", "legacy"), ("tar", "mar-big"),
                        ("text", "zip"), ("zip", "text"), ("zip", "zip2"), ("legacy", "legacy")}
         if ctx.tier == "quick" and (a, b) not in interesting:
             continue
